@@ -34,6 +34,8 @@ type killCase struct {
 	DelayMs   int    `json:"delay_ms"`
 	Pattern   string `json:"pattern"` // single, repeated, concurrent, cleanup
 	N         int    `json:"n"`
+	// EarlyKill: Kill is called once before the client is started (a no-op); it must not change what happens later
+	EarlyKill bool `json:"early_kill,omitempty"`
 }
 
 type killObs struct {
@@ -148,6 +150,9 @@ func startForKill(c killCase, bin, tmp string, managed bool) (*startedPlugin, er
 	hc := &vp.HostCfg{LegacyVersion: 1, Legacy: &vp.SetCfg{Proto: "grpc", Tag: "1"}, Allowed: []string{"netrpc", "grpc"},
 		Mux: mux && c.Launch != "reattach", Launch: launch, TempDir: tmp, StartTimeoutMs: 5000, Managed: managed && c.Launch != "reattach"}
 	p := vp.NewPair(bin, hc, pc, []string{"TMPDIR=" + tmp}, nil)
+	if c.EarlyKill {
+		p.Client.Kill()
+	}
 	_, err := p.Client.Start()
 	sp.pid = p.Pid()
 	sp.pair = p
